@@ -215,6 +215,7 @@ KINDS = (
     ("JDefaultDict", lambda: JDefaultDict(int, a=1)),
     ("MetaInst", MetaInst),
     ("MetaInst-class", lambda: MetaInst),
+    ("mappingproxy(JDict)", lambda: types.MappingProxyType(JDict(a=1))),  # a read-only view DELEGATES keys()/values()/len/iter
 )
 HASHABLE = {"GetAttribute", "GetAttr", "ClassProp", "LazyDesc", "Journal", "JTuple", "MetaInst", "MetaInst-class"}
 CALLABLE = {"GetAttribute", "GetAttr", "ClassProp", "LazyDesc", "Journal", "MetaInst-class"}
